@@ -6,14 +6,14 @@ DK = K
 if ":" in K:   # "<source k>:<destination k>", e.g. 1:3 for the first change of the second round
     K, DK = K.split(":")
 needs = " ".join(sys.argv[3:])
-src = f"/tmp/seed_{P}"
+src = f"/tmp/seed{os.environ.get('ROUND', '')}_{P}"
 dst = f"/verif/seeded/{P}-{DK}"
 os.makedirs(dst, exist_ok=True)
 shutil.copy(f"{src}/patch{K}.diff", f"{dst}/patch.diff")
 shutil.copy(f"{src}/demo{K}.py", f"{dst}/demo.py")
 if os.path.exists(f"{src}/notes{K}.md"):
     shutil.copy(f"{src}/notes{K}.md", f"{dst}/notes.md")
-base = subprocess.run(["git", "-C", f"/tmp/wt_{P}", "rev-parse", "--short", "HEAD"], capture_output=True, text=True).stdout.strip()
+base = subprocess.run(["git", "-C", f"/tmp/wt{os.environ.get('ROUND', '')}_{P}", "rev-parse", "--short", "HEAD"], capture_output=True, text=True).stdout.strip()
 meta = {
     "id": f"{P}-{DK}", "property": P, "author": "independent sub-agent given only the property text and a scratch worktree",
     "base_commit": base, "needs_to_manifest": needs,
